@@ -17,10 +17,11 @@ const bubbleEpoch = 946684800 // 2000-01-01T00:00:00Z, where synctest's clock st
 const sec = int64(1_000_000_000)
 
 type G struct {
-	r    *rand.Rand
-	prop string
-	tier string
-	n    int
+	r       *rand.Rand
+	prop    string
+	tier    string
+	n       int
+	pending *History
 }
 
 func pick[T any](g *G, xs ...T) T { return xs[g.r.Intn(len(xs))] }
